@@ -217,7 +217,7 @@ def main():
         "hooks": {
             "guard": "varlink_rust_verif",
             "enable": "RUSTFLAGS='--cfg varlink_rust_verif' (no hook is needed by the Verus units; none is installed)",
-            "baseline_off_cmd": "cd /repo && cargo test --workspace --no-fail-fast --offline",
+            "baseline_off_cmd": "cd /repo && cargo nextest run --workspace --no-fail-fast --tool-config-file pb:/w/lib/nextest.toml --profile pb --test-threads 8 --offline",
             "source_commits": [],
             "add_only": True,
         },
